@@ -20,6 +20,7 @@ import (
 	"verif/lib/gg"
 	"verif/lib/mc"
 	"verif/lib/refgeom"
+	"verif/lib/retain"
 )
 
 var ffin = []float64{
@@ -189,6 +190,8 @@ func emptyNonCollection(g orb.Geometry) bool {
 	return false
 }
 
+var kept retain.Keeper
+
 func checkGeometry(c *mc.Ctx, g orb.Geometry) {
 	desc := fmt.Sprintf("geometry=%T %v", g, g)
 	want := nf(g)
@@ -210,6 +213,13 @@ func checkGeometry(c *mc.Ctx, g orb.Geometry) {
 	}
 	if got := nf(back.Geometry()); got != want {
 		c.Failf("json-roundtrip", "decoded %T %v differs (bit-wise, normal form) | %s", back.Geometry(), back.Geometry(), desc)
+	}
+	// what earlier calls returned must still be what they returned
+	if d := kept.Bytes(c.Worker, "JSON from Marshal", b, desc); d != "" {
+		c.Failf("result-overwritten", "%s | now %s", d, desc)
+	}
+	if d := kept.Geometry(c.Worker, "geometry from UnmarshalGeometry", back.Geometry(), desc); d != "" {
+		c.Failf("result-overwritten", "%s | now %s", d, desc)
 	}
 	if b2, err := json.Marshal(back); err != nil || !bytes.Equal(b, b2) {
 		c.Failf("json-remarshal", "marshalling the decoded value gives %s (%v) | %s", b2, err, desc)
